@@ -149,6 +149,25 @@ def rule_DC(run: Run) -> RuleResult:
                 bad = f"forwards with options {e0.opts.key()[:60] if e0.opts is not None else None}"
         res.add(f"labrea.dataset.Dataset.{op}:delegates to _composed.{op}(options)", bool(ops_paths) and not bad, f, m.lineno,
                 bad or "forwards to the composed expression with the caller's options", nec)
+    # every effect handed to add_effects is kept — an Effect as it is, a plain callable wrapped as a CallbackEffect: on every path
+    # that looked at an element, that element (or the effect built from it) is appended to the dataset's effects
+    ae = ds.methods.get("add_effects")
+    if ae is not None:
+        ok_ae, why_ae, n_ae = True, "", 0
+        for p in analyse_function(Ctx(repo), ds.module, ae, cls=ds):
+            if p.status != "ret":
+                continue
+            elem_conds = [c for c in p.conds if c[2] and "[*]" in c[2]]
+            if not elem_conds:
+                continue
+            n_ae += 1
+            kept = [e for e in p.events if e.kind == "call" and e.text in ("append", "extend", "insert") and e.target is not None and "effects" in e.target.key()]
+            if not kept:
+                ok_ae = False
+                why_ae = f"an element that is {'an' if elem_conds[0][1] else 'not an'} Effect is dropped (conditions {[c[0][:40] for c in elem_conds]})"
+        res.add("labrea.dataset.Dataset.add_effects:every effect handed in is kept", ok_ae and n_ae >= 2, f, ae.lineno,
+                why_ae or f"{n_ae} element paths, each appends to self.effects",
+                "an effect attached to a dataset runs after every execution of its body (C02); a callable silently dropped by add_effects never runs")
     return res
 
 
